@@ -23,9 +23,12 @@ PROPS = {
                 "GetMomentumBeforeTime at every timestamp +-1 s against the specification and the loop model, plus "
                 "GetMomentumProducer for all slots of two ticks on the caching instance and on a cold instance",
         "partial": "rand.Perm and sort.Sort are parameters (any permutation / any sorted permutation); hashes, ed25519 and the "
-                   "momentum VM are oracle values; the equality of the estimate-and-search loop of GetMomentumBeforeTime with "
-                   "its specification is established by correspondence only (before_time_* theorems are partial); "
-                   "ComputePillarDelegations (weights from balances) is taken from the real code; schedule equality after "
+                   "momentum VM are oracle values; GetMomentumBeforeTime = specification is proved for whole-second instants "
+                   "(all callers) and only as partial correctness for sub-second instants (the real loop can spin there: "
+                   "before_time_subsecond_hangs); ToTick is modelled for whole-second instants only (Duration.Seconds() is a "
+                   "float; the last nanosecond of a tick rounds up for chains older than 194 days - counted by the ticker "
+                   "stream, not judged); the ticker theorems hold within 292 years of genesis (int64 ns Duration; negative "
+                   "witness ticker_wraps_after_292_years); ComputePillarDelegations (weights from balances) is taken from the real code; schedule equality after "
                    "restart / reorganisation across nodes is left to the sync stream (C06/C16)",
         "assumptions": ["math/rand.Perm returns a permutation of 0..n-1 (checked by the driver on every shipped oracle value)",
                         "sort.Sort returns a sorted permutation of its input"],
